@@ -20,7 +20,7 @@ for spec in "$@"; do
   rsync -a --delete --exclude target --exclude Cargo.lock /verif/harness/ $ROOT/harness/
   sed -i "s#\"/repo/#\"$ROOT/repo/#g" $ROOT/harness/*/Cargo.toml
   [ -f $ROOT/harness/Cargo.lock ] || cp /repo/Cargo.lock $ROOT/harness/Cargo.lock
-  rsync -a /verif/known_findings.json /verif/properties.jsonl $ROOT/verif/
+  rsync -a /verif/known_findings.json /verif/properties.jsonl /verif/oracles $ROOT/verif/
   if ! ( cd $ROOT/harness && nice -n 10 cargo build --release --offline -p kv-core > $ROOT/build.log 2>&1 ); then
     echo "$ID BUILD-FAILED"; tail -5 $ROOT/build.log; continue
   fi
